@@ -84,6 +84,9 @@ def extract_inputs(ctx, model):
         mv = model.eval(v, model_completion=True)
         if z3.is_bool(v):
             vals[name] = bool(z3.is_true(mv))
+        elif z3.is_fp(v):
+            from . import fp as _fp
+            vals[name] = _fp.fpval_to_float(mv)
         else:
             vals[name] = float(core.z3num_to_frac(mv))
     if ctx.uf_records:
@@ -319,7 +322,7 @@ def dyadic_models(ctx, Q, timeout_s=6.0):
             s.add(z3.Not(Q))
         for name in ctx.input_order:
             v = ctx.inputs[name]
-            if z3.is_bool(v):
+            if z3.is_bool(v) or z3.is_fp(v):
                 continue
             m = z3.Int("dy!%s" % name)
             s.add(v * (2 ** k) == z3.ToReal(m)); s.add(m >= -(2 ** (k + 8))); s.add(m <= 2 ** (k + 8))
